@@ -113,9 +113,9 @@ class GeoGrid(Grid):
         :return: :class:`GeoGrid` instance.
         """
         try:
-            lat_seq = np.loadtxt(filename + "_lat.txt")
-            lon_seq = np.loadtxt(filename + "_lon.txt")
-            time_seq = np.loadtxt(filename + "_time.txt")
+            lat_seq = np.loadtxt(filename + "_lat.txt", ndmin=1)
+            lon_seq = np.loadtxt(filename + "_lon.txt", ndmin=1)
+            time_seq = np.loadtxt(filename + "_time.txt", ndmin=1)
         except IOError:
             print("An error occurred while loading Grid instance from "
                   f"text files {filename}")
